@@ -140,8 +140,8 @@ def run_trace(name, prog, rng, nops):
                 if kind == "emit":
                     B.Obs.callno = k + 1
                     B.Plan.reset(())
-                    fut = lv.node(a).emit(b)
                     rec["x"] = ["i", b]
+                    fut = lv.node(a).emit(b)
                 elif kind == "connect":
                     lv.node(a).connect(lv.node(b))
                     model["ups"][b].append(a)
@@ -192,17 +192,24 @@ def main():
         import mutants
         mutants.apply(a.mutant)
     B.install_probes()
+    # everything imported so far goes to the permanent generation: the per-operation gc.collect() stays cheap
+    gc.collect()
+    gc.freeze()
     traces = []
     per = 150 if a.tier == "quick" else 1500
+    nev = 0
     for name, prog in graphs():
         for _ in range(per):
-            traces.append(run_trace(name, prog, rng, rng.randint(4, 9)))
-    for i, t in enumerate(traces, start=1):
-        t["id"] = i
+            t = run_trace(name, prog, rng, rng.randint(4, 9))
+            t["id"] = len(traces) + 1
+            nev += len(t["ev"])
+            # keep results as strings: containers kept alive would make every gc.collect() slower
+            traces.append(json.dumps(t, separators=(",", ":")))
+            del t
     os.makedirs(a.out, exist_ok=True)
     with open(os.path.join(a.out, "runs.json"), "w") as f:
-        json.dump(traces, f, separators=(",", ":"))
-    print(json.dumps({"runs": len(traces), "events": sum(len(t["ev"]) for t in traces)}))
+        f.write("[" + ",".join(traces) + "]")
+    print(json.dumps({"runs": len(traces), "events": nev}))
 
 
 if __name__ == "__main__":
